@@ -119,29 +119,38 @@ pub fn model_json(m: &[(String, BigRational)]) -> J {
 /// replay a model: exact rationals at Sym (constants only), then natively at f64
 pub fn replay(unit: &Unit, v: &Violation, timeout_ms: u64) -> Replay {
     let mut r = Replay::default();
-    // (1) exact
+    // (1) exact. Inputs the model does not mention are unconstrained by the query; they get a default value, and if that
+    // default violates an assumption of the harness (e.g. positivity) the next candidate is tried.
     let saved = CTX.with(|c| c.borrow_mut().take());
-    let mut ctx = Ctx::new(timeout_ms);
-    ctx.mode = Mode::Exact;
-    ctx.max_decisions = unit.max_decisions;
-    for (k, val) in &v.model { ctx.exact_inputs.insert(k.clone(), val.clone()); }
-    ctx.begin_path(vec![]);
-    CTX.with(|c| *c.borrow_mut() = Some(ctx));
-    let end = run_body(&unit.sym);
-    let (viols, residual) = sym::with(|c| (c.violations.clone(), c.decisions.len()));
-    match (&end, v.kind.as_str()) {
-        (PathEnd::Panic(m), "panic") => { r.exact_reproduces = true; r.exact_detail = format!("panics: {}", m); }
-        (_, "panic") => { r.exact_detail = "no panic on exact replay".into(); }
-        (PathEnd::Abort(a), _) => { r.exact_detail = format!("engine abort: {}", a); }
-        _ => {
-            if let Some(x) = viols.iter().find(|x| x.label == v.label) { r.exact_reproduces = true; r.exact_detail = format!("obligation false on exact replay: {}", x.detail); }
-            else if let PathEnd::Panic(m) = &end { r.exact_detail = format!("panicked before reaching the obligation: {}", m); }
-            else { r.exact_detail = format!("obligation '{}' held on exact replay ({} residual symbolic decisions)", v.label, residual); }
+    let defaults: [(i64, i64); 5] = [(0, 1), (1, 1), (1, 2), (-1, 1), (2, 1)];
+    let mut used_default = 0.0f64;
+    for (dn, dd) in defaults {
+        let mut ctx = Ctx::new(timeout_ms);
+        ctx.mode = Mode::Exact;
+        ctx.max_decisions = unit.max_decisions;
+        ctx.exact_default = BigRational::new(dn.into(), dd.into());
+        for (k, val) in &v.model { ctx.exact_inputs.insert(k.clone(), val.clone()); }
+        ctx.begin_path(vec![]);
+        CTX.with(|c| *c.borrow_mut() = Some(ctx));
+        let end = run_body(&unit.sym);
+        let (viols, residual) = sym::with(|c| (c.violations.clone(), c.decisions.len()));
+        used_default = dn as f64 / dd as f64;
+        r.exact_reproduces = false;
+        match (&end, v.kind.as_str()) {
+            (PathEnd::Panic(m), "panic") => { r.exact_reproduces = true; r.exact_detail = format!("panics: {}", m); }
+            (_, "panic") => { r.exact_detail = "no panic on exact replay".into(); }
+            (PathEnd::Abort(a), _) => { r.exact_detail = format!("engine abort: {}", a); if a.starts_with("assumption") { continue; } }
+            _ => {
+                if let Some(x) = viols.iter().find(|x| x.label == v.label) { r.exact_reproduces = true; r.exact_detail = format!("obligation false on exact replay: {}", x.detail); }
+                else if let PathEnd::Panic(m) = &end { r.exact_detail = format!("panicked before reaching the obligation: {}", m); }
+                else { r.exact_detail = format!("obligation '{}' held on exact replay ({} residual symbolic decisions)", v.label, residual); }
+            }
         }
+        if r.exact_reproduces || !matches!(end, PathEnd::Abort(_)) { break; }
     }
     CTX.with(|c| *c.borrow_mut() = saved);
     // (2) native f64
-    NATIVE.with(|n| { let mut n = n.borrow_mut(); *n = NativeCtx::default(); for (k, val) in &v.model { n.inputs.insert(k.clone(), sym::rat_f64(val)); } });
+    NATIVE.with(|n| { let mut n = n.borrow_mut(); *n = NativeCtx::default(); n.default = used_default; for (k, val) in &v.model { n.inputs.insert(k.clone(), sym::rat_f64(val)); } });
     let end = run_body(&unit.nat);
     NATIVE.with(|n| {
         let n = n.borrow();
